@@ -1,6 +1,6 @@
 (* C06 lemmas, part 3: [[Set]] -- the slow path on cached shapes, bookkeeping of ordinary_set, step simulation
    for set sites, and the run-level theorem. *)
-From Coq Require Import NArith Bool List Lia.
+From Coq Require Import NArith Bool List Lia PeanoNat Arith.
 From Gen Require Import SlotFlags.
 From C06 Require Import Model_C06 Proofs_C06 ProofsB_C06.
 Import ListNotations.
@@ -261,7 +261,7 @@ Lemma os_cacheable : forall h o k v x tr h' sl x',
   ordinary_set (chain_fuel h) h o k v o slot_new = Some (tr, h', true, sl) ->
   sf_is_cacheable (s_attrs sl) = true ->
   get_obj h' o = Some x' ->
-  entry_ok SSet h' k (o_shape x', sl).
+  slot_describes SSet h' k (o_shape x') sl.
 Proof.
   intros h o k v x tr h' sl x' Hx H Hc Hx'.
   destruct (chain_fuel_SS h) as [f Hf]. rewrite Hf in H.
@@ -271,15 +271,13 @@ Proof.
       destruct (get_storage (o_store x) (i, a)) as [d|]; [|discriminate].
       unfold set_acc_result in H. destruct (d_set d) as [[| |fn]|]; inversion H; subst.
       rewrite Hx in Hx'. inversion Hx'; subst.
-      unfold entry_ok, entry_deps. simpl. rewrite L0. destruct (own_pat_facts a) as [-> _].
-      split; [reflexivity|]. intros _ Hd. rewrite Ea in Hd. discriminate.
+      left. exists i, a. repeat split; auto. intros _ Hd. rewrite Ea in Hd. discriminate.
     + destruct (a_w a) eqn:Ew.
       * rewrite (os_own_data _ _ _ _ _ _ _ _ Hx L0 Ea Ew) in H.
         destruct (nthN (o_store x) i); [|discriminate].
         destruct (set_nth (o_store x) i v) as [stg|]; [|discriminate].
         inversion H; subst. rewrite (get_set_obj_same _ _ _ _ Hx) in Hx'. inversion Hx'; subst.
-        unfold entry_ok, entry_deps. simpl. rewrite lookup_shape_set_obj, L0. destruct (own_pat_facts a) as [-> _].
-        split; auto.
+        left. exists i, a. simpl. rewrite lookup_shape_set_obj. repeat split; auto.
       * exfalso. exact (os_own_data_nw _ _ _ _ _ _ _ _ _ _ _ Hx L0 Ea Ew H).
   - destruct (shape_proto h (o_shape x)) as [p|] eqn:P0.
     2:{ rewrite (os_add_not_cacheable _ _ _ _ _ _ _ _ _ Hx L0 P0 H) in Hc. discriminate. }
@@ -301,8 +299,7 @@ Proof.
         destruct (get_storage (o_store px) (i, a)) as [d|]; [|discriminate].
         unfold set_acc_result in H. destruct (d_set d) as [[| |fn]|]; inversion H; subst.
         rewrite Hx in Hx'. inversion Hx'; subst.
-        unfold entry_ok, entry_deps. simpl. rewrite L0, P0, Hpx, L1. destruct (proto_pat_facts a) as [-> _].
-        split; [reflexivity | auto].
+        right. exists p, px, i, a. repeat split; auto.
       * exfalso.
         cbn -[get_obj get_with_slot set_data_case shape_proto] in H. rewrite Hx, gws_eq, L0, P0 in H.
         cbn -[get_obj get_with_slot set_data_case shape_proto] in H. rewrite Hpx, gws_eq, L1 in H.
@@ -318,306 +315,165 @@ Proof.
       * apply sdc_nc in H; [|assumption]. rewrite (not_cacheable_nc _ H) in Hc. discriminate.
 Qed.
 
-(* ------------------------------------------------------------------------------------------- simulation: set sites *)
-Definition set_regular (h : heap) (x : obj) (sl : slot) : Prop :=
-  sf_is_accessor_descriptor (s_attrs sl) = true ->
-  sf_has_set (s_attrs sl) = true /\
-  forall stg r, hit_store h x sl = Some stg -> nthN stg (s_index sl + 1) = Some r -> is_object r = true.
-
-Lemma set_acc_hit st i a d v h sl tr h' ok slu :
-  a_is_accessor a = true -> get_storage st (i, a) = Some d -> a_s a = true ->
-  (forall r, nthN st (i + 1) = Some r -> is_object r = true) ->
-  set_acc_result h v d sl = Some (tr, h', ok, slu) ->
-  exists f, nthN st (i + 1) = Some (VFun f) /\ tr = call_setter f v /\ h' = h /\ ok = true.
+(* ------------------------------------------------------------------------------------------- heap steps are monotone *)
+Lemma nthN_app_some {A} (l : list A) u x y : nthN l u = Some x -> nthN (l ++ [y]) u = Some x.
+Proof. unfold nthN. intro H. rewrite nth_error_app1; auto. apply nth_error_Some. congruence. Qed.
+Lemma umono_app h us : umono h {| h_objs := h_objs h; h_ushapes := h_ushapes h ++ [us] |}.
+Proof. intros u us0 H. simpl. exists us0. split; auto. now apply nthN_app_some. Qed.
+Lemma set_nth_nat_get {A} : forall (l : list A) i v l', set_nth_nat l i v = Some l' ->
+  forall j, nth_error l' j = if Nat.eqb i j then Some v else nth_error l j.
 Proof.
-  intros Ha Hd Hs Hobj H. destruct (get_storage_acc_kind _ _ _ _ Ha Hd) as [g [s [Hk [Hseq _]]]].
-  rewrite Hs in Hseq. unfold set_acc_result, d_set in H. rewrite Hk in H.
-  destruct (nthN st (i + 1)) as [r|] eqn:En.
-  - pose proof (Hobj r eq_refl) as Ho. subst s. destruct r as [| |f]; try discriminate Ho.
-    inversion H; subst. eauto.
-  - subst s. rewrite get_storage_acc in Hd by assumption. rewrite Hs, En in Hd.
-    destruct (if a_g a then v0 <- nthN st i;; Some (Some v0) else Some None); discriminate.
+  induction l as [|a l IH]; intros i v l' H j; [destruct i; discriminate|].
+  destruct i; simpl in H.
+  - inversion H; subst. destruct j; reflexivity.
+  - destruct (set_nth_nat l i v) as [t|] eqn:E; [|discriminate]. inversion H; subst.
+    destruct j; simpl; [reflexivity|]. apply (IH _ _ _ E).
+Qed.
+Lemma lookup_tab_app t r k x : lookup_tab t k = Some x -> lookup_tab (t ++ r) k = Some x.
+Proof. induction t as [|[k' s] t IH]; simpl; [discriminate|]. destruct (N.eqb k' k); auto. Qed.
+Lemma umono_set_ushape h u us us' : nthN (h_ushapes h) u = Some us ->
+  (forall k x, lookup_tab (u_tab us) k = Some x -> lookup_tab (u_tab us') k = Some x) -> umono h (set_ushape h u us').
+Proof.
+  intros Hu Hl. unfold set_ushape, set_nth. destruct (set_nth_nat (h_ushapes h) (N.to_nat u) us') as [l|] eqn:E; [|apply umono_refl].
+  intros u0 us0 H0. simpl. unfold nthN in *. rewrite (set_nth_nat_get _ _ _ _ E).
+  destruct (Nat.eqb_spec (N.to_nat u) (N.to_nat u0)) as [Eq|Ne].
+  - rewrite <- Eq, Hu in H0. inversion H0; subst. eauto.
+  - eauto.
+Qed.
+Lemma umono_set_obj_r h h1 o x : umono h h1 -> umono h (set_obj h1 o x).
+Proof. intro M. eapply umono_trans; [exact M|]. apply umono_eq. unfold set_obj. destruct (set_nth (h_objs h1) o x); reflexivity. Qed.
+
+Lemma finish_shared_umono h p h' s : finish_shared h p = (h', s) -> umono h h'.
+Proof.
+  unfold finish_shared, new_ushape. destruct (N.leb sf_TRANSITION_COUNT_MAX (lenN p)); intro H; inversion H; subst;
+    [apply umono_app | apply umono_refl].
+Qed.
+Lemma shape_insert_umono h s k a h' s' : shape_insert h s k a = (h', s') -> umono h h'.
+Proof.
+  unfold shape_insert. destruct s as [p|u]; [apply finish_shared_umono|].
+  destruct (nthN (h_ushapes h) u) as [us|] eqn:E; intro H; inversion H; subst; [|apply umono_refl].
+  eapply umono_set_ushape; eauto. simpl. intros. now apply lookup_tab_app.
+Qed.
+Lemma shape_change_attrs_umono h s k a old h' s' act : shape_change_attrs h s k a old = Some (h', s', act) -> umono h h'.
+Proof.
+  unfold shape_change_attrs, new_ushape. intro H. destruct s as [p|u].
+  - break_hyp H; inversion H; subst; eapply finish_shared_umono; eauto.
+  - break_hyp H; inversion H; subst; apply umono_app.
+Qed.
+Lemma shape_remove_umono h s k h' s' : shape_remove h s k = Some (h', s') -> umono h h'.
+Proof.
+  unfold shape_remove, new_ushape. intro H. destruct s as [p|u].
+  - break_hyp H. inversion H. eapply finish_shared_umono; eauto.
+  - break_hyp H; inversion H; subst; [apply umono_app | apply umono_refl].
+Qed.
+Lemma shape_set_proto_umono h s q h' s' : shape_set_proto h s q = (h', s') -> umono h h'.
+Proof.
+  unfold shape_set_proto, new_ushape. destruct s as [p|u]; [apply finish_shared_umono|].
+  destruct (nthN (h_ushapes h) u); intro H; inversion H; subst; [apply umono_app | apply umono_refl].
 Qed.
 
-Lemma set_hit_sim : forall h k o x sl v tr h' ok slu,
-  get_obj h o = Some x -> entry_ok SSet h k (o_shape x, sl) -> set_regular h x sl ->
-  ordinary_set (chain_fuel h) h o k v o slot_new = Some (tr, h', ok, slu) ->
-  (sf_is_accessor_descriptor (s_attrs sl) = true /\ sf_has_set (s_attrs sl) = true /\
-   exists stg f, hit_store h x sl = Some stg /\ nthN stg (s_index sl + 1) = Some (VFun f) /\
-     tr = call_setter f v /\ h' = h /\ ok = true)
-  \/
-  (sf_is_accessor_descriptor (s_attrs sl) = false /\ has_flag (s_attrs sl) sf_PROTOTYPE = false /\
-   exists stg, set_nth (o_store x) (s_index sl) v = Some stg /\ tr = [] /\ ok = true /\
-     h' = set_obj h o {| o_shape := o_shape x; o_store := stg; o_ext := o_ext x |}).
+Ltac break_all :=
+  repeat match goal with
+  | H : context [match ?x with _ => _ end] |- _ => destruct x eqn:?; try discriminate
+  end.
+Ltac inv_somes :=
+  repeat match goal with
+  | H : Some _ = Some _ |- _ => inversion H; subst; clear H
+  | H : (_, _) = (_, _) |- _ => inversion H; subst; clear H
+  end.
+
+Lemma iws_umono h o x k d sl h' sl' : insert_with_slot h o x k d sl = Some (h', sl') -> umono h h'.
 Proof.
-  intros h k o x sl v tr h' ok slu Hx Hok Hreg H.
-  destruct (chain_fuel_SS h) as [f Hf]. rewrite Hf in H.
-  unfold entry_ok, entry_deps in Hok. simpl in Hok.
-  destruct (lookup_shape h (o_shape x) k) as [[i a]|] eqn:L0.
-  - assert (Hsl : sl = own_pat i a /\ (a_is_accessor a = false -> a_w a = true)).
-    { destruct (shape_proto h (o_shape x)), (has_flag (s_attrs sl) sf_PROTOTYPE); try contradiction;
-        destruct Hok as [? Hw]; split; auto. }
-    destruct Hsl as [-> Hw].
-    destruct (own_pat_facts a) as (Fp & Fg & Fs & Fa & _).
-    destruct (a_is_accessor a) eqn:Ea.
-    + left. rewrite (os_own_acc _ _ _ _ _ _ _ _ Hx L0 Ea) in H.
-      destruct (get_storage (o_store x) (i, a)) as [d|] eqn:Hd; [|discriminate].
-      unfold set_regular in Hreg. simpl in Hreg. rewrite Fa, Fs in Hreg. destruct (Hreg eq_refl) as [Hs Hobj].
-      destruct (set_acc_hit _ _ _ _ _ _ _ _ _ _ _ Ea Hd Hs (fun r => Hobj (o_store x) r (hit_store_own h x i a)) H)
-        as [fn [Hn [Ht [Hh Ho]]]].
-      simpl. rewrite Fa, Fs. repeat split; auto. exists (o_store x), fn. repeat split; auto. apply hit_store_own.
-    + right. rewrite (os_own_data _ _ _ _ _ _ _ _ Hx L0 Ea (Hw eq_refl)) in H.
-      destruct (nthN (o_store x) i); [|discriminate].
-      destruct (set_nth (o_store x) i v) as [stg|] eqn:Es; [|discriminate].
-      inversion H; subst. simpl. rewrite Fa, Fp. repeat split; auto. exists stg. repeat split; auto.
-  - destruct (shape_proto h (o_shape x)) as [p|] eqn:P0; [|contradiction].
-    destruct (has_flag (s_attrs sl) sf_PROTOTYPE); [|contradiction].
-    destruct (get_obj h p) as [px|] eqn:Hpx; [|contradiction].
-    destruct (lookup_shape h (o_shape px) k) as [[i a]|] eqn:L1; [|contradiction].
-    destruct Hok as [-> Hacc]. specialize (Hacc eq_refl).
-    destruct (proto_pat_facts a) as (Fp & Fg & Fs & Fa & _).
-    left. rewrite (os_proto_acc _ _ _ _ _ _ _ _ _ _ Hx L0 P0 Hpx L1 Hacc) in H.
-    destruct (get_storage (o_store px) (i, a)) as [d|] eqn:Hd; [|discriminate].
-    unfold set_regular in Hreg. simpl in Hreg. rewrite Fa, Fs, Hacc in Hreg. destruct (Hreg eq_refl) as [Hs Hobj].
-    destruct (set_acc_hit _ _ _ _ _ _ _ _ _ _ _ Hacc Hd Hs (fun r => Hobj (o_store px) r (hit_store_proto h x i a p px P0 Hpx)) H)
-      as [fn [Hn [Ht [Hh Ho]]]].
-    simpl. rewrite Fa, Fs, Hacc. repeat split; auto. exists (o_store px), fn. repeat split; auto.
-    eapply hit_store_proto; eauto.
+  intro H. unfold insert_with_slot in H. destruct (to_attrs d) as [a|]; [|discriminate]. cbv zeta in H.
+  destruct (lookup_shape h (o_shape x) k) as [[i olda]|].
+  - destruct (negb (dattrs_eqb olda a)).
+    + destruct (shape_change_attrs h (o_shape x) k a olda) as [[[h1 s1] act]|] eqn:E; [|discriminate].
+      apply shape_change_attrs_umono in E. break_all; inv_somes; now apply umono_set_obj_r.
+    + break_hyp H; inversion H; subst; apply umono_set_obj_r, umono_refl.
+  - destruct (shape_insert h (o_shape x) k a) as [h1 s1] eqn:E. inversion H; subst.
+    apply umono_set_obj_r. eapply shape_insert_umono; eauto.
 Qed.
-
-Local Opaque ordinary_set chain_fuel hit_store.
-
-Lemma sim_set : forall stc stu n k o v outs_u stu',
-  IC_valid stc -> st_heap stc = st_heap stu ->
-  (forall x sl, get_obj (st_heap stc) o = Some x ->
-     fst (ic_get (site_get (st_sites stc) (SSet, n, k)) (o_shape x)) = Some sl -> set_regular (st_heap stc) x sl) ->
-  (forall outs st', cached_set true stc (SSet, n, k) o v = Some (outs, st') ->
-     disturbed (st_heap stc) (st_heap st') (st_sites stc) = None) ->
-  cached_set false stu (SSet, n, k) o v = Some (outs_u, stu') ->
-  exists outs_c stc', cached_set true stc (SSet, n, k) o v = Some (outs_c, stc') /\
-    filter visible outs_c = filter visible outs_u /\ st_heap stc' = st_heap stu' /\ IC_valid stc'.
+Lemma pm_remove_umono h o x k h' : pm_remove h o x k = Some h' -> umono h h'.
 Proof.
-  intros stc stu n k o v outs_u stu' Hv Hh Hreg Hd H.
-  unfold cached_set in H. rewrite <- Hh in H.
-  remember (st_heap stc) as h eqn:Eh.
-  destruct (get_obj h o) as [x|] eqn:Hx.
-  2:{ inversion H; subst. exists [ONoObj], stc. split; [|repeat split; auto].
-      unfold cached_set. rewrite Hx. reflexivity. }
-  destruct (ordinary_set (chain_fuel h) h o k v o slot_new) as [[[[tr h'] ok] slu]|] eqn:G; [|discriminate].
-  cbn in H. destruct (get_obj h' o) as [x'|] eqn:Hx'; [|discriminate]. inversion H; subst outs_u stu'; clear H.
-  destruct (ic_get (site_get (st_sites stc) (SSet, n, k)) (o_shape x)) as [hit ev] eqn:I.
-  destruct hit as [sl|].
-  - pose proof (ic_get_hit _ _ _ _ I) as Hin.
-    pose proof (cache_entries_ok stc SSet n k Hv _ Hin) as Hok. rewrite <- Eh in Hok.
-    assert (Hr : set_regular h x sl).
-    { apply (Hreg x sl eq_refl). rewrite I. reflexivity. }
-    destruct (set_hit_sim h k o x sl v tr h' ok slu Hx Hok Hr G)
-      as [(Ha & Hs & stg & f & Hst & Hn & Ht & Hh' & Ho) | (Ha & Hp & stg & Hst & Ht & Ho & Hh')]; subst tr ok h'.
-    + assert (E : cached_set true stc (SSet, n, k) o v = Some (call_setter f v ++ [OBool true; OIC ev], stc)).
-      { unfold cached_set. rewrite <- Eh, Hx, I. cbn -[hit_store]. rewrite Ha, Hst, Hn, Hs. reflexivity. }
-      eexists; eexists; split; [exact E|]. rewrite !filter_visible_app. simpl. repeat split; auto.
-    + assert (E : cached_set true stc (SSet, n, k) o v =
-                  Some ([OBool true; OIC ev],
-                        {| st_heap := set_obj h o {| o_shape := o_shape x; o_store := stg; o_ext := o_ext x |};
-                           st_sites := st_sites stc |})).
-      { unfold cached_set. rewrite <- Eh, Hx, I. cbn -[hit_store]. rewrite Ha, Hp, Hst. reflexivity. }
-      eexists; eexists; split; [exact E|]. simpl. repeat split; auto.
-      apply IC_valid_heap_step; auto. pose proof (Hd _ _ E) as Hdist. simpl in Hdist. rewrite Eh in Hdist |- *. exact Hdist.
-  - destruct (ok && sf_is_cacheable (s_attrs slu)) eqn:Ec.
-    + destruct (ic_set (site_get (st_sites stc) (SSet, n, k)) (o_shape x') slu) as [c' ev'] eqn:Es.
-      assert (E : cached_set true stc (SSet, n, k) o v =
-                  Some (tr ++ [if ok then OBool true else OTypeErr; OIC (ev ++ ev')],
-                        {| st_heap := h'; st_sites := site_put (st_sites stc) (SSet, n, k) c' |})).
-      { unfold cached_set. rewrite <- Eh, Hx, I. cbn -[hit_store]. rewrite G. cbn -[hit_store]. rewrite Hx'.
-        cbn -[hit_store]. rewrite Ec, Es. reflexivity. }
-      eexists; eexists; split; [exact E|]. rewrite !filter_visible_app. simpl. repeat split; auto.
-      apply andb_true_iff in Ec as [-> Ec].
-      pose proof (Hd _ _ E) as Hdist. simpl in Hdist. rewrite Eh in Hdist.
-      pose proof (IC_valid_heap_step stc h' Hv Hdist) as Hv1.
-      apply (IC_valid_put {| st_heap := h'; st_sites := st_sites stc |} SSet n k c' Hv1). simpl. intros e He.
-      destruct (ic_set_entries _ _ _ _ _ Es e He) as [Hold | ->].
-      * apply (cache_entries_ok {| st_heap := h'; st_sites := st_sites stc |} SSet n k Hv1 e Hold).
-      * exact (os_cacheable h o k v x tr h' slu x' Hx G Ec Hx').
-    + assert (E : cached_set true stc (SSet, n, k) o v =
-                  Some (tr ++ [if ok then OBool true else OTypeErr; OIC (ev ++ [])],
-                        {| st_heap := h'; st_sites := site_put (st_sites stc) (SSet, n, k) (site_get (st_sites stc) (SSet, n, k)) |})).
-      { unfold cached_set. rewrite <- Eh, Hx, I. cbn -[hit_store]. rewrite G. cbn -[hit_store]. rewrite Hx'.
-        cbn -[hit_store]. rewrite Ec. reflexivity. }
-      eexists; eexists; split; [exact E|]. rewrite !filter_visible_app. simpl. repeat split; auto.
-      pose proof (Hd _ _ E) as Hdist. simpl in Hdist. rewrite Eh in Hdist.
-      pose proof (IC_valid_heap_step stc h' Hv Hdist) as Hv1.
-      apply (IC_valid_put {| st_heap := h'; st_sites := st_sites stc |} SSet n k _ Hv1). simpl. intros e He.
-      apply (cache_entries_ok {| st_heap := h'; st_sites := st_sites stc |} SSet n k Hv1 e He).
+  intro H. unfold pm_remove in H. break_hyp H; inversion H; subst; try apply umono_refl.
+  apply umono_set_obj_r. eauto using shape_remove_umono.
 Qed.
-
-(* ------------------------------------------------------------------------------------------- steps *)
-Local Transparent hit_store.
-
-Lemma hit_irr_get st kd s k ob (o : op) :
-  (o = OpGet s k ob /\ kd = SGet) \/ (o = OpGetGlobal s k /\ kd = SGlobal /\ ob = GLOBAL) ->
-  hit_irregular st o = None ->
-  forall x sl, get_obj (st_heap st) ob = Some x ->
-    fst (ic_get (site_get (st_sites st) (kd, s, k)) (o_shape x)) = Some sl -> get_regular (st_heap st) x sl.
+Lemma vaa_umono h o x k ext d cur sl h' sl' ok : validate_and_apply h o x k ext d cur sl = Some (h', sl', ok) -> umono h h'.
 Proof.
-  intros Ho H x sl Hx Hi.
-  assert (H' : match (if sf_is_accessor_descriptor (s_attrs sl) then
-                        if sf_has_get (s_attrs sl) then
-                          match hit_store (st_heap st) x sl with
-                          | Some stg => match nthN stg (s_index sl) with Some (VNum _) => Some KGetterIrregular | _ => None end
-                          | None => None
-                          end
-                        else Some KGetterIrregular
-                      else None) with Some c => Some c | None => None end = None).
-  { destruct Ho as [[-> ->] | [-> [-> ->]]]; unfold hit_irregular in H; cbv beta iota zeta in H;
-      rewrite Hx, Hi in H; rewrite H; reflexivity. }
-  clear H. intro Ha. rewrite Ha in H'. destruct (sf_has_get (s_attrs sl)); [|discriminate].
-  split; auto. intros stg n Hs Hn. rewrite Hs, Hn in H'. discriminate.
+  intro H. unfold validate_and_apply in H. cbv zeta beta in H.
+  destruct cur as [cur|].
+  - destruct (d_conf cur) as [cconf|]; [|discriminate]. destruct (d_enum cur) as [cenum|]; [|discriminate].
+    repeat match type of H with
+    | context [match insert_with_slot ?a ?b ?c ?e ?f ?g with _ => _ end] =>
+        let E := fresh "E" in destruct (insert_with_slot a b c e f g) as [[? ?]|] eqn:E; [apply iws_umono in E|try discriminate H]
+    | context [match ?x with _ => _ end] => destruct x eqn:?; try discriminate H
+    end; inversion H; subst; auto using umono_refl.
+  - destruct (negb ext); [inversion H; subst; apply umono_refl|].
+    destruct (insert_with_slot h o x k _ sl) as [[h1 sl1]|] eqn:E; [|discriminate].
+    inversion H; subst. eapply iws_umono; eauto.
 Qed.
-
-Lemma hit_irr_set st s k ob v :
-  hit_irregular st (OpSet s k ob v) = None ->
-  forall x sl, get_obj (st_heap st) ob = Some x ->
-    fst (ic_get (site_get (st_sites st) (SSet, s, k)) (o_shape x)) = Some sl -> set_regular (st_heap st) x sl.
+Lemma dop_umono h o k d sl h' sl' ok : define_own_property h o k d sl = Some (h', sl', ok) -> umono h h'.
 Proof.
-  intros H x sl Hx Hi. unfold hit_irregular in H. rewrite Hx, Hi in H.
-  intro Ha. rewrite Ha in H. destruct (sf_has_set (s_attrs sl)); [|discriminate].
-  split; auto. intros stg r Hs Hn. rewrite Hs, Hn in H. destruct (is_object r); [reflexivity | discriminate].
+  intro H. unfold define_own_property in H. destruct (get_obj h o) as [x|]; [|discriminate].
+  destruct (get_with_slot h x k sl) as [[cur sl1]|]; [|discriminate]. eapply vaa_umono; eauto.
 Qed.
-
-Definition is_site_op (o : op) : bool :=
-  match o with OpGet _ _ _ | OpSet _ _ _ _ | OpGetGlobal _ _ => true | _ => false end.
-
-(* operations that do not run a site: same outputs, same heap; the caches are untouched or only lose entries *)
-Lemma step_nonsite : forall o stc stu outs stu',
-  is_site_op o = false -> st_heap stc = st_heap stu ->
-  step false stu o = Some (outs, stu') ->
-  exists stc', step true stc o = Some (outs, stc') /\ st_heap stc' = st_heap stu' /\
-    (st_sites stc' = st_sites stc \/
-     exists kd s k keep, o = OpEvict kd s k keep /\ st_heap stc' = st_heap stc /\
-       st_sites stc' = site_put (st_sites stc) (kd, s, k)
-         {| c_entries := filter_keep (c_entries (site_get (st_sites stc) (kd, s, k))) keep;
-            c_mega := c_mega (site_get (st_sites stc) (kd, s, k)) |}).
+Lemma sdc_umono h o r k v ho od sl tr h' ok sl' : set_data_case h o r k v ho od sl = Some (tr, h', ok, sl') -> umono h h'.
 Proof.
-  intros o stc stu outs stu' Hs Hh H.
-  destruct o; try discriminate Hs; unfold step in *; rewrite <- Hh in H; unfold with_heap in *.
-  - (* alloc *)
-    destruct (match proto with Some q => negb (N.ltb q (lenN (h_objs (st_heap stc)))) | None => false end).
-    + inversion H; subst. eexists; split; [reflexivity|]. simpl. auto.
-    + destruct unique.
-      * destruct (new_ushape (st_heap stc) _) as [h1 u]. inversion H; subst. eexists; split; [reflexivity|]. simpl. auto.
-      * inversion H; subst. eexists; split; [reflexivity|]. simpl. auto.
-  - destruct (get_obj (st_heap stc) o); [|inversion H; subst; eexists; split; [reflexivity|]; simpl; auto].
-    destruct (define_own_property (st_heap stc) o k d slot_new) as [[[h' sl] ok]|]; [|discriminate].
-    inversion H; subst. eexists; split; [reflexivity|]. simpl. auto.
-  - destruct (get_obj (st_heap stc) o); [|inversion H; subst; eexists; split; [reflexivity|]; simpl; auto].
-    destruct (ordinary_delete (st_heap stc) o k) as [[h' ok]|]; [|discriminate].
-    inversion H; subst. eexists; split; [reflexivity|]. simpl. auto.
-  - destruct (get_obj (st_heap stc) o); [|inversion H; subst; eexists; split; [reflexivity|]; simpl; auto].
-    destruct (ordinary_set_prototype_of (st_heap stc) o p) as [[h' ok]|]; [|discriminate].
-    inversion H; subst. eexists; split; [reflexivity|]. simpl. auto.
-  - destruct (get_obj (st_heap stc) o); [|inversion H; subst; eexists; split; [reflexivity|]; simpl; auto].
-    destruct (prevent_extensions (st_heap stc) o) as [h'|]; [|discriminate].
-    inversion H; subst. eexists; split; [reflexivity|]. simpl. auto.
-  - destruct (get_obj (st_heap stc) o); [|inversion H; subst; eexists; split; [reflexivity|]; simpl; auto].
-    destruct (freeze (st_heap stc) o) as [[h' ok]|]; [|discriminate].
-    inversion H; subst. eexists; split; [reflexivity|]. simpl. auto.
-  - destruct (get_obj (st_heap stc) o) as [x|]; [|inversion H; subst; eexists; split; [reflexivity|]; simpl; auto].
-    destruct (dump_props (o_store x) (shape_tab (st_heap stc) (o_shape x))); [|discriminate].
-    inversion H; subst. eexists; split; [reflexivity|]. simpl. auto.
-  - inversion H; subst. eexists; split; [reflexivity|]. simpl. split; auto. right.
-    exists kind, s, k, keep. auto.
+  intro H. unfold set_data_case in H. cbv zeta in H.
+  repeat match type of H with
+  | context [match define_own_property ?a ?b ?c ?e ?f with _ => _ end] =>
+      let E := fresh "E" in destruct (define_own_property a b c e f) as [[[? ?] ?]|] eqn:E; [apply dop_umono in E|try discriminate H]
+  | context [match ?x with _ => _ end] => destruct x eqn:?; try discriminate H
+  end; inversion H; subst; auto using umono_refl.
 Qed.
-
-Lemma sim_step : forall o stc stu outs_u stu',
-  IC_valid stc -> st_heap stc = st_heap stu -> known_step stc o = None ->
-  step false stu o = Some (outs_u, stu') ->
-  exists outs_c stc', step true stc o = Some (outs_c, stc') /\
-    filter visible outs_c = filter visible outs_u /\ st_heap stc' = st_heap stu' /\ IC_valid stc'.
+Lemma os_umono : forall fuel h o k v r sl tr h' ok sl', ordinary_set fuel h o k v r sl = Some (tr, h', ok, sl') -> umono h h'.
 Proof.
-  intros o stc stu outs_u stu' Hv Hh Hk H.
-  unfold known_step in Hk. destruct (hit_irregular stc o) eqn:Hirr; [discriminate|].
-  destruct (is_site_op o) eqn:Hs.
-  - destruct o; try discriminate Hs; cbn [step] in *.
-    + (* get *)
-      destruct (sim_get false stc stu SGet s k o outs_u stu') as (oc & stc' & E & Hvis & Hc & Hu & Hv'); auto.
-      * discriminate.
-      * eapply hit_irr_get; eauto.
-      * exists oc, stc'. repeat split; auto. congruence.
-    + (* set *)
-      destruct (sim_set stc stu s k o v outs_u stu') as (oc & stc' & E & Hvis & Hc & Hv'); auto.
-      * eapply hit_irr_set; eauto.
-      * intros outs st' E. rewrite E in Hk. exact Hk.
-      * exists oc, stc'. repeat split; auto.
-    + (* global name *)
-      destruct (sim_get true stc stu SGlobal s k GLOBAL outs_u stu') as (oc & stc' & E & Hvis & Hc & Hu & Hv'); auto.
-      * discriminate.
-      * eapply hit_irr_get; eauto.
-      * exists oc, stc'. repeat split; auto. congruence.
-  - destruct (step_nonsite o stc stu outs_u stu' Hs Hh H) as (stc' & E & Hheap & Hsites).
-    exists outs_u, stc'. repeat split; auto.
-    rewrite E in Hk.
-    destruct Hsites as [Hsame | (kd & s & k & keep & -> & Hh' & Hput)].
-    + destruct stc' as [h' ss']. simpl in *. subst ss'. apply IC_valid_heap_step; auto.
-    + destruct stc' as [h' ss']. simpl in Hh', Hput. rewrite Hput, Hh'.
-      apply (IC_valid_put stc kd s k _ Hv). simpl. intros e He. apply filter_keep_in in He.
-      eapply cache_entries_ok; eauto.
+  induction fuel as [|fuel IH]; intros h o k v r sl tr h' ok sl' H; [discriminate|].
+  cbn -[get_obj get_with_slot set_data_case shape_proto] in H.
+  destruct (get_obj h o) as [x|]; [|discriminate].
+  destruct (get_with_slot h x k sl) as [[own sl1]|]; [|discriminate].
+  destruct own as [od|].
+  - destruct (is_data od); [eapply sdc_umono; eauto|].
+    destruct (d_set od) as [[| |f]|]; inversion H; subst; apply umono_refl.
+  - destruct (shape_proto h (o_shape x)); [eapply IH; eauto | eapply sdc_umono; eauto].
 Qed.
-
-Lemma run_sim : forall ops stc stu i,
-  IC_valid stc -> st_heap stc = st_heap stu -> first_known stc ops i = None ->
-  ~ In None (run false stu ops) ->
-  observable (run true stc ops) = observable (run false stu ops).
+Lemma delete_umono h o k h' ok : ordinary_delete h o k = Some (h', ok) -> umono h h'.
 Proof.
-  induction ops as [|o r IH]; intros stc stu i Hv Hh Hk Hnp; [reflexivity|].
-  cbn [run first_known] in *.
-  destruct (known_step stc o) eqn:Hks; [discriminate|].
-  destruct (step false stu o) as [[outs_u stu']|] eqn:Eu.
-  2:{ exfalso. apply Hnp. left. reflexivity. }
-  destruct (sim_step o stc stu outs_u stu' Hv Hh Hks Eu) as (oc & stc' & Ec & Hvis & Hheap & Hv').
-  rewrite Ec in *. unfold observable in *. cbn [map]. rewrite Hvis. f_equal.
-  apply (IH stc' stu' (i + 1)); auto. intro Hin. apply Hnp. right. exact Hin.
+  intro H. unfold ordinary_delete in H.
+  repeat match type of H with
+  | context [match pm_remove ?a ?b ?c ?e with _ => _ end] =>
+      let E := fresh "E" in destruct (pm_remove a b c e) eqn:E; [apply pm_remove_umono in E|try discriminate H]
+  | context [match ?x with _ => _ end] => destruct x eqn:?; try discriminate H
+  end; inversion H; subst; auto using umono_refl.
 Qed.
-
-Lemma ic_transparent_except_known_lemma : forall ops,
-  ~ KnownClass ops -> ~ In None (run_uncached ops) ->
-  observable (run_cached ops) = observable (run_uncached ops).
+Lemma setproto_umono h o q h' ok : ordinary_set_prototype_of h o q = Some (h', ok) -> umono h h'.
 Proof.
-  intros ops Hk Hnp. unfold run_cached, run_uncached.
-  apply (run_sim ops init init 0); auto using IC_valid_init.
-  unfold KnownClass in Hk. destruct (first_known init ops 0); [exfalso; apply Hk; discriminate | reflexivity].
+  intro H. unfold ordinary_set_prototype_of in H. destruct (get_obj h o) as [x|]; [|discriminate].
+  destruct (opt_eqb N.eqb q (shape_proto h (o_shape x))); [inversion H; subst; apply umono_refl|].
+  destruct (negb (o_ext x)); [inversion H; subst; apply umono_refl|].
+  destruct (proto_chain_has (chain_fuel h) h q o); [inversion H; subst; apply umono_refl|].
+  destruct (shape_set_proto h (o_shape x) q) as [h1 s1] eqn:E. inversion H; subst.
+  apply umono_set_obj_r. eapply shape_set_proto_umono; eauto.
 Qed.
-
-(* every step outside the known class keeps the invariant (stated for the cached run alone) *)
-Lemma IC_valid_step_lemma : forall o st outs st',
-  IC_valid st -> known_step st o = None -> step false st o <> None -> step true st o = Some (outs, st') -> IC_valid st'.
+Lemma prevent_umono h o h' : prevent_extensions h o = Some h' -> umono h h'.
 Proof.
-  intros o st outs st' Hv Hk Hu E.
-  destruct (step false st o) as [[ou su]|] eqn:Eu; [|contradiction].
-  destruct (sim_step o st st ou su Hv eq_refl Hk Eu) as (oc & stc' & Ec & _ & _ & Hv').
-  rewrite E in Ec. inversion Ec; subst. exact Hv'.
+  unfold prevent_extensions. destruct (get_obj h o); [|discriminate]. intro H; inversion H; subst.
+  apply umono_set_obj_r, umono_refl.
 Qed.
-
-(* ------------------------------------------------------------------------------------------- a clean history *)
-Definition w_clean : list op :=
-  [OpAlloc false None; OpDefine 2 0 (dd (VNum 1) true true true); OpDefine 2 1 (da (VFun 1) (VFun 2) true true);
-   OpAlloc false (Some 2); OpAlloc false (Some 2); OpDefine 4 2 (dd (VNum 5) true true true);
-   OpGet 0 0 3; OpGet 0 0 3; OpGet 0 0 4; OpGet 0 0 4; OpGet 0 0 2; OpGet 0 0 2;
-   OpSet 0 1 3 (VNum 7); OpSet 0 1 3 (VNum 8);
-   OpSet 0 2 4 (VNum 6); OpSet 0 2 4 (VNum 9); OpGet 1 2 4; OpGet 1 2 4;
-   OpDelete 4 2; OpGet 1 2 4; OpDefine 4 3 (dd (VNum 3) true true true); OpGet 0 0 4;
-   OpDefine 1 0 (dd (VNum 4) true true true); OpGetGlobal 0 0; OpGetGlobal 0 0;
-   OpAlloc false None; OpDefine 5 0 (dd (VNum 1) false true true);
-   OpAlloc false None; OpDefine 6 0 (dd (VNum 1) true false true);
-   OpAlloc true None; OpDefine 7 0 (dd (VNum 1) true true false);
-   OpGet 0 0 5; OpGet 0 0 6; OpGet 0 0 7; OpGet 0 0 2; OpDump 2; OpDump 4].
-Definition hits (r : list (option (list out))) : nat :=
-  length (filter (fun x => match x with
-                           | Some l => existsb (fun o => match o with OIC (EvHit :: _) => true | _ => false end) l
-                           | None => false end) r).
-Lemma clean_history_lemma : ~ KnownClass w_clean /\ ~ In None (run_uncached w_clean) /\ hits (run_cached w_clean) = 7%nat.
+Lemma freeze_keys_umono : forall ks h o h' ok, freeze_keys h o ks = Some (h', ok) -> umono h h'.
 Proof.
-  split; [|split].
-  - unfold KnownClass. vm_compute. intro H. apply H. reflexivity.
-  - vm_compute. intuition discriminate.
-  - vm_compute. reflexivity.
+  induction ks as [|k r IH]; intros h o h' ok H; simpl in H; [inversion H; subst; apply umono_refl|].
+  destruct (get_obj h o) as [x|]; [|discriminate].
+  destruct (get_with_slot h x k slot_new) as [[cur sl]|]; [|discriminate].
+  destruct cur as [cd|]; [|eauto].
+  destruct (define_own_property h o k _ slot_new) as [[[h1 sl1] ok1]|] eqn:E; [|discriminate].
+  apply dop_umono in E. destruct ok1.
+  - eapply umono_trans; eauto.
+  - inversion H; subst. exact E.
+Qed.
+Lemma freeze_umono h o h' ok : freeze h o = Some (h', ok) -> umono h h'.
+Proof.
+  unfold freeze. destruct (prevent_extensions h o) as [h1|] eqn:E; [|discriminate].
+  destruct (get_obj h1 o) as [x|]; [|discriminate]. intro H.
+  eapply umono_trans; [eapply prevent_umono; eauto | eapply freeze_keys_umono; eauto].
 Qed.
